@@ -159,13 +159,20 @@ class FunctionLogger:
         if not np.isscalar(fval_orig) and np.size(fval_orig) == 1:
             fval_orig = np.array(fval_orig).flat[0]
 
-        # Check function value
-        if np.any(
-            not np.isscalar(fval_orig)
-            or not np.isfinite(fval_orig)
-            or not np.isreal(fval_orig)
-            or np.iscomplexobj(fval_orig)
-        ):
+        # Check function value (a Python int may be too large for NumPy's
+        # ufuncs and extended-precision values may overflow a float: decide
+        # on the float the optimizer will actually work with)
+        try:
+            invalid_fval = bool(
+                not np.isscalar(fval_orig)
+                or isinstance(fval_orig, (str, bytes))
+                or np.iscomplexobj(fval_orig)
+                or not np.isreal(fval_orig)
+                or not np.isfinite(float(fval_orig))
+            )
+        except (TypeError, ValueError, OverflowError):
+            invalid_fval = True
+        if invalid_fval:
             error_message = """FunctionLogger:InvalidFuncValue:
             The returned function value must be a finite real-valued scalar
             (returned value {})"""
@@ -178,12 +185,13 @@ class FunctionLogger:
             try:
                 invalid_sd = bool(
                     not np.isscalar(fsd)
+                    or isinstance(fsd, (str, bytes))
                     or np.iscomplexobj(fsd)
-                    or not np.isfinite(fsd)
                     or not np.isreal(fsd)
-                    or fsd <= 0.0
+                    or not np.isfinite(float(fsd))
+                    or float(fsd) <= 0.0
                 )
-            except TypeError:
+            except (TypeError, ValueError, OverflowError):
                 # None, strings and other non-numeric objects
                 invalid_sd = True
             if invalid_sd:
